@@ -55,7 +55,7 @@ theorem C02_unbounded_shapes :
     partFmt "MAJOR" = some .str ∧ partFmt "MINOR" = some .str ∧ partFmt "PATCH" = some .str ∧ partFmt "NUM" = some .str ∧
     partFmt "INC0" = some .str ∧ partFmt "INC1" = some .str ∧ partFmt "BUILD" = some .str ∧ partFmt "BLD" = some .int ∧
     partFmt "YYYY" = some .str ∧ partFmt "GGGG" = some .str := by
-  sorry
+  refine ⟨?_, ?_, ?_, ?_, ?_, ?_, ?_, ?_, ?_, ?_, ?_, ?_, ?_, ?_, ?_, ?_, ?_, ?_, ?_, ?_⟩ <;> decide +kernel
 
 /-- "what follows is not a digit" -/
 def noDigitAhead (rest : Str) : Prop := ∀ c, rest.head? = some c → isDigit c = false
@@ -65,30 +65,60 @@ def noDigitAhead (rest : Str) : Prop := ∀ c, rest.head? = some c → isDigit c
 theorem C02_nat_part (n : Nat) (rest : Str) (hr : noDigitAhead rest) :
     matchLen reDigitsPlus (fmtValue .str (.nat n) ++ rest) = some (fmtValue .str (.nat n)).length ∧
     strToNat (fmtValue .str (.nat n)) = n := by
-  sorry
+  have hf : fmtValue .str (.nat n) = natToStr n := rfl
+  rw [hf]
+  exact ⟨match_digitsPlus (natToStr n) rest (natToStr_ne_nil n) (allDigits_natToStr n) hr,
+    strToNat_natToStr n⟩
 
 /-- BUILD: every non-empty digit string (leading zeros included) is consumed in full and is
     carried verbatim -/
 theorem C02_build_part (b : Str) (hb : isDigitStr b = true) (rest : Str) (hr : noDigitAhead rest) :
     matchLen reDigitsPlus (fmtValue .str (.str b) ++ rest) = some b.length ∧ fmtValue .str (.str b) = b := by
-  sorry
+  have hf : fmtValue .str (.str b) = b := rfl
+  rw [hf]
+  rw [isDigitStr_iff] at hb
+  exact ⟨match_digitsPlus b rest hb.1 hb.2 hr, rfl⟩
 
 /-- INC1 and BLD (`[1-9][0-9]*`): every n ≥ 1; BLD renders `str(int(bid))`, which is accepted
     whenever the BUILD value is not zero -/
 theorem C02_posint_part (n : Nat) (hn : 1 ≤ n) (rest : Str) (hr : noDigitAhead rest) :
     matchLen rePosInt (natToStr n ++ rest) = some (natToStr n).length ∧ strToNat (natToStr n) = n := by
-  sorry
+  refine ⟨?_, strToNat_natToStr n⟩
+  have hd := allDigits_natToStr n
+  have hne := natToStr_ne_nil n
+  have hh := natToStr_head_ne_zero n (by omega)
+  generalize natToStr n = s at hd hne hh
+  cases s with
+  | nil => exact absurd rfl hne
+  | cons c t =>
+    rw [allDigits_cons] at hd
+    exact match_posInt c t rest hd.1 (hh c t rfl) hd.2 hr
 
 theorem C02_bld_part (b : Str) (hb : isDigitStr b = true) (hpos : 1 ≤ strToNat b) (rest : Str) (hr : noDigitAhead rest) :
     matchLen rePosInt (fmtValue .int (.str b) ++ rest) = some (fmtValue .int (.str b)).length ∧
     strToNat (fmtValue .int (.str b)) = strToNat b := by
-  sorry
+  have _ := hb
+  have hf : fmtValue .int (.str b) = natToStr (strToNat b) := rfl
+  rw [hf]
+  exact C02_posint_part (strToNat b) hpos rest hr
 
 /-- YYYY / GGGG: fixed width — every year 1000..9999 is consumed as exactly four characters,
     WHATEVER follows (so `YYYY0M` needs no separator) -/
 theorem C02_year_part (y : Nat) (h1 : 1000 ≤ y) (h2 : y ≤ 9999) (rest : Str) :
     matchLen reYear4 (natToStr y ++ rest) = some 4 ∧ (natToStr y).length = 4 ∧ strToNat (natToStr y) = y := by
-  sorry
+  have hlen := natToStr_length_eq 3 y (by omega) (by omega)
+  refine ⟨?_, hlen, strToNat_natToStr y⟩
+  have hd := allDigits_natToStr y
+  have hh := natToStr_head_ne_zero y (by omega)
+  generalize natToStr y = s at hd hlen hh
+  cases s with
+  | nil => simp at hlen
+  | cons c t =>
+    rw [allDigits_cons] at hd
+    have ht : t.length = 3 := by simpa using hlen
+    have := match_posFixed c t rest hd.1 (hh c t rfl) hd.2
+    rw [List.length_cons, ht] at this
+    exact this
 
 /-- one (part, value) check for the finite domains: the rendering is consumed in full when
     alone, when followed by a non-digit, and (fixed-width parts) when followed by a digit; and it
@@ -118,7 +148,7 @@ theorem C02_finite_parts :
                                     partOK "0G" y (fun s => strToNat s + 2000) true) = true ∧
     (range1 2001 2099).all (fun y => partOK "YY" y (fun s => strToNat s + 2000) false &&
                                     partOK "GG" y (fun s => strToNat s + 2000) false) = true := by
-  sorry
+  refine ⟨?_, ?_, ?_, ?_, ?_, ?_, ?_, ?_⟩ <;> decide +kernel
 
 /-- tags: every release tag the CLI accepts is recognised in full by TAG (also before a digit or
     a separator), every non-final short tag by PYTAG; the alternatives are ordered so that no
@@ -133,13 +163,13 @@ theorem C02_tag_parts :
       match partRe "PYTAG" with
       | some r => matchLen r t.toList == some t.length && matchLen r (t.toList ++ ['0']) == some t.length
       | none => false) = true := by
-  sorry
+  refine ⟨?_, ?_⟩ <;> decide +kernel
 
 /-- Known finding F-C02-week53: `%W`/`%U` produce week 53, which WW/0W/UU/0U do not recognise -/
 theorem C02_week53_witness :
     (calInfo 2018 12 31).weekW = 53 ∧ partOK "WW" 53 strToNat false = false ∧ partOK "0W" 53 strToNat true = false ∧
     partOK "UU" 53 strToNat false = false ∧ partOK "0U" 53 strToNat true = false := by
-  sorry
+  refine ⟨?_, ?_, ?_, ?_, ?_⟩ <;> decide +kernel
 
 /-- what `cal_info` produces lies inside the recognised domains — for EVERY valid date; the
     only escape is week 53 of %W/%U -/
@@ -148,11 +178,11 @@ theorem C02_calinfo_domains (y m d : Nat) (hv : validDate y m d = true) :
     1 ≤ c.month ∧ c.month ≤ 12 ∧ 1 ≤ c.dom ∧ c.dom ≤ 31 ∧ 1 ≤ c.doy ∧ c.doy ≤ 366 ∧
     1 ≤ c.quarter ∧ c.quarter ≤ 4 ∧ 1 ≤ c.weekV ∧ c.weekV ≤ 53 ∧ c.weekW ≤ 53 ∧ c.weekU ≤ 53 ∧
     c.yearY = y ∧ 1 ≤ y ∧ y ≤ 9999 := by
-  sorry
+  exact calInfo_domains y m d hv
 
 /-- bumping keeps the unbounded numeric parts inside their domains: INC1 stays ≥ 1 -/
 theorem C02_inc1_positive (fs : List Str) (old cur new : VInfo) (fl : IncrFlags)
     (h1 : 1 ≤ cur.inc1) (h : incrNumeric fs old cur fl = .ok new) : 1 ≤ new.inc1 := by
-  sorry
+  exact incrNumeric_inc1_pos fs old cur new fl h1 h
 
 end BV
